@@ -14,4 +14,4 @@ rc=$?
 case $rc in 0) v=MISSED;; 1) v=CAUGHT;; 2) v=INCONCLUSIVE;; *) v="rc=$rc";; esac
 echo "$prop/$tier $v: $(grep -m1 '^  \[' "$tb/out.txt" | cut -c1-300)"
 [ "$v" = CAUGHT ] || tail -n 3 "$tb/out.txt"
-rm -rf "$scr" "$tb"
+rm -rf "$scr" "$tb" "work/alt-$(printf %s "$scr" | sha1sum | cut -c1-10)"
